@@ -47,6 +47,26 @@
 // the Manager and what the host advertises is the address manager's recompute every addrChangeTickrInterval = 5 s
 // (p2p/host/basic/addrs_manager.go); 11 s = two periods + 1 s slack. So "withdrawn within 11 s after the close".
 //
+// Variants (bit 5 of the stratum draw; the settled variant draws nothing new, so its tapes keep their meaning):
+//   - settled: warm start (H alone for 11 s, checked), then settle + check after EVERY operation. By construction no
+//     operation ever meets an identify exchange in flight, a withdrawal the host has not yet recomputed, or a recompute in
+//     progress, and H's first connection always happens on a host that has been idle for 11 s.
+//   - unsettled: after about half of the operations (drawn; at most 5 in a row because the documented worker queue holds 16
+//     observations) there is no IdentifyWait, no settle and no check — the next operation follows at once or after a drawn
+//     1 ms .. 6 s, so it lands anywhere in the 5 s recompute period and meets identify in flight (H or the observer closes
+//     during the exchange: the report arrives on a closed connection; probe sys-identify-completed-on-conn-closed-before-settle);
+//     in half of these runs the start is cold: H is built last and the first operation follows in the same instant. The
+//     oracle is judged at the settled instants only (and always in the epilogue).
+//
+// What the harness calls only to observe, and what those calls do (audit 2026-09-26): BasicHost.Addrs()/AllAddrs() read the
+// address manager's currentAddrs under its read lock — they neither recompute nor trigger the background loop;
+// Manager.AddrsFor/Addrs read under the read lock and only memoise the joined multiaddr per observer set;
+// Swarm.Conns/ConnsToPeer/ListenAddresses, Conn.IsClosed/Stat, simnet.NATMappings are reads. IDService.IdentifyWait is NOT a
+// pure read — it starts identify if nobody has — but identify's own Connected notifiee has already called it before DialPeer
+// returns, so the harness is at most a second waiter; what it did do in the settled variant is make every operation wait
+// for every exchange, which is why the unsettled variant exists. The harness's extra subscriber on H's bus (buffer 2048,
+// drained at settled instants) only adds a sink to the identify-completed emitter.
+//
 // Not reachable here: more than one observed address per listen address (the NAT has one public IP and the mapping
 // is port-preserving), hence the cap and the ordering are only exercised by the Manager-level strata.
 package c17
@@ -140,15 +160,18 @@ type crec struct {
 	identified bool   // identify completed on it (H's event bus)
 	carried    string // thin waist of the ObservedAddr the identify event carried
 	open       bool
+	everOpen   bool // seen open at a settled instant
 }
 
-func runSystem(t *testing.T, tape *simrt.Tape, g simrt.Gen, o *common.Outcome) *common.Outcome {
+func runSystem(t *testing.T, tape *simrt.Tape, g simrt.Gen, o *common.Outcome, unsettled bool) *common.Outcome {
 	thresh := []int{4, 2, 3}[g.Weighted(3, 3, 1)]
 	v6 := g.Chance(1, 3)
 	wt := g.Chance(1, 4)
 	nObs := g.Range(3, 10)
 	nLAN := g.Weighted(2, 2, 1)
 	nOps := g.Range(3, 16)
+	// unsettled variant only (the settled variant draws nothing new, its tapes keep their meaning): cold start
+	cold := unsettled && g.Chance(1, 2)
 
 	fam, hPriv, hPub, probeIP := "ip4", "10.0.0.1", "5.5.5.5", "7.7.7.7"
 	if v6 {
@@ -178,7 +201,7 @@ func runSystem(t *testing.T, tape *simrt.Tape, g simrt.Gen, o *common.Outcome) *
 		}
 		specs = append(specs, s)
 	}
-	o.Logf("stratum=system thresh=%d family=%s webtransport=%v observers=%d lan=%d ops=%d", thresh, fam, wt, nObs, nLAN, nOps)
+	o.Logf("stratum=system thresh=%d family=%s webtransport=%v observers=%d lan=%d ops=%d unsettled=%v cold=%v", thresh, fam, wt, nObs, nLAN, nOps, unsettled, cold)
 
 	prevThresh := observedaddrs.ActivationThresh
 	observedaddrs.ActivationThresh = thresh
@@ -189,28 +212,55 @@ func runSystem(t *testing.T, tape *simrt.Tape, g simrt.Gen, o *common.Outcome) *
 	sig := fnv.New64a()
 	finished := false
 	var sawActive, sawWithdrawn bool
+	var lateRecs []*crec
 
 	res := simrt.Run(t, simrt.Config{MaxSteps: 6_000_000, IdleLimit: time.Hour}, tape.S, func() {
 		n := simnet.New(tape.G, simnet.Config{})
 		n.SetNAT(hPriv, hPub)
-		lazy := &lazyOAM{}
-		h, err := simhost.New(n, simhost.Opts{Key: simhost.DetKey(1), IP: hPriv, Port: 4001, QUIC: true, WebTransport: wt, WithHost: true,
-			HostOpts: &basichost.HostOpts{ObservedAddrsManager: lazy}})
-		if err != nil {
-			o.Trouble = "host H: " + err.Error()
-			return
+		var h *simhost.Node
+		var mgr *observedaddrs.Manager
+		var hsub event.Subscription
+		buildH := func() bool {
+			lazy := &lazyOAM{}
+			var err error
+			h, err = simhost.New(n, simhost.Opts{Key: simhost.DetKey(1), IP: hPriv, Port: 4001, QUIC: true, WebTransport: wt, WithHost: true,
+				HostOpts: &basichost.HostOpts{ObservedAddrsManager: lazy}})
+			if err != nil {
+				o.Trouble = "host H: " + err.Error()
+				h = nil
+				return false
+			}
+			mgr, err = observedaddrs.NewManager(h.Bus, h.Swarm)
+			if err != nil {
+				o.Trouble = "NewManager: " + err.Error()
+				return false
+			}
+			mgr.Start(h.Swarm)
+			lazy.m = mgr
+			hsub, err = h.Bus.Subscribe(new(event.EvtPeerIdentificationCompleted), eventbus.BufSize(2048))
+			if err != nil {
+				o.Trouble = "subscribe: " + err.Error()
+				return false
+			}
+			return true
 		}
-		mgr, err := observedaddrs.NewManager(h.Bus, h.Swarm)
-		if err != nil {
-			o.Trouble = "NewManager: " + err.Error()
-			h.Close()
-			return
+		closeH := func() {
+			if hsub != nil {
+				hsub.Close()
+			}
+			if h != nil {
+				h.Close()
+			}
+			if mgr != nil {
+				mgr.Close()
+			}
 		}
-		mgr.Start(h.Swarm)
-		lazy.m = mgr
-		hsub, err := h.Bus.Subscribe(new(event.EvtPeerIdentificationCompleted), eventbus.BufSize(2048))
-		if err != nil {
-			o.Trouble = "subscribe: " + err.Error()
+		// warm (the settled variant, and half of the unsettled one): H exists first and gets 11 s of its own before anything
+		// connects. cold: H is built LAST and the first operation follows at once — H's first connection, identify's first
+		// run, the Manager's first observation and the address manager's first recomputes all happen on a host that was
+		// started in the same instant.
+		if !cold && !buildH() {
+			closeH()
 			return
 		}
 
@@ -229,8 +279,7 @@ func runSystem(t *testing.T, tape *simrt.Tape, g simrt.Gen, o *common.Outcome) *
 			if err != nil {
 				o.Trouble = "observer: " + err.Error()
 				closeAll()
-				h.Close()
-				mgr.Close()
+				closeH()
 				return
 			}
 			x := &sysNode{name: fmt.Sprintf("O%d", i), nd: nd, group: groupOfAddr(nd.Addr)}
@@ -247,8 +296,7 @@ func runSystem(t *testing.T, tape *simrt.Tape, g simrt.Gen, o *common.Outcome) *
 			if err != nil {
 				o.Trouble = "lan node: " + err.Error()
 				closeAll()
-				h.Close()
-				mgr.Close()
+				closeH()
 				return
 			}
 			x := &sysNode{name: fmt.Sprintf("LAN%d", j), nd: nd, lan: true, group: groupOfAddr(nd.Addr)}
@@ -260,13 +308,18 @@ func runSystem(t *testing.T, tape *simrt.Tape, g simrt.Gen, o *common.Outcome) *
 		if err != nil {
 			o.Trouble = "probe node: " + err.Error()
 			closeAll()
-			h.Close()
-			mgr.Close()
+			closeH()
 			return
 		}
 		psub, err := probe.Bus.Subscribe(new(event.EvtPeerIdentificationCompleted), eventbus.BufSize(256))
 		if err != nil {
 			o.Trouble = "subscribe: " + err.Error()
+			return
+		}
+		if cold && !buildH() {
+			closeAll()
+			probe.Close()
+			closeH()
 			return
 		}
 
@@ -337,7 +390,7 @@ func runSystem(t *testing.T, tape *simrt.Tape, g simrt.Gen, o *common.Outcome) *
 				}
 				open[c] = true
 				r := recOf(c)
-				r.open = true
+				r.open, r.everOpen = true, true
 				r.ltw = twOf(c.LocalMultiaddr())
 				r.group = groupOfAddr(c.RemoteMultiaddr())
 				r.dir = c.Stat().Direction.String()
@@ -563,6 +616,7 @@ func runSystem(t *testing.T, tape *simrt.Tape, g simrt.Gen, o *common.Outcome) *
 			}
 		}
 		nProbe := 0
+		streak := 0 // operations since the last settled instant
 		step := func(i int) {
 			at := fmt.Sprintf("op%d", i)
 			kind := g.Weighted(9, 2, 2, 1, 2, 3, 2, 1, 2, 1)
@@ -649,6 +703,11 @@ func runSystem(t *testing.T, tape *simrt.Tape, g simrt.Gen, o *common.Outcome) *
 				x.dead = true
 			case 9: // what H's identify sends: a fresh connection to the probe node (TCP: does not add an observer)
 				nProbe++
+				if streak > 0 { // the reference the message is judged against must be a settled one
+					settle()
+					check(at + "(before probe)")
+					streak = 0
+				}
 				o.Logf("%s: H dials the probe node", at)
 				if err := dial(h, probe.ID, probe.Addr); err != nil {
 					logErr("dial", err)
@@ -677,11 +736,37 @@ func runSystem(t *testing.T, tape *simrt.Tape, g simrt.Gen, o *common.Outcome) *
 				}
 				h.Swarm.ClosePeer(probe.ID)
 			}
+			// Unsettled variant: after half of the operations the harness does NOT wait for identify, for the Manager or for
+			// the host's recompute — the next operation follows at once or after a short drawn sleep (so that it lands
+			// anywhere in the 5 s recompute period), meets identify exchanges in flight (close during identify: the report
+			// arrives on a closed connection), withdrawals not yet reflected by the host, and is itself not observed by the
+			// harness. The oracle is judged at the settled instants only. At most 5 unsettled operations in a row (<= 10
+			// identify exchanges): the documented worker queue holds 16 observations, and a dropped observation would make
+			// "missing" fire for a documented behaviour.
+			if unsettled && streak < 5 {
+				if m := g.Weighted(4, 3, 3); m != 0 {
+					streak++
+					o.Probe("sys-operation-not-settled")
+					if m == 2 {
+						d := []time.Duration{time.Millisecond, 100 * time.Millisecond, 2 * time.Second, 4900 * time.Millisecond, 5 * time.Second, 6 * time.Second}[g.Int(6)]
+						o.Logf("   (no settle; %v pass)", d)
+						simrt.TimeSleep(d)
+					} else {
+						o.Logf("   (no settle)")
+					}
+					return
+				}
+			}
+			streak = 0
 			settle()
 			check(at)
 		}
-		settle()
-		check("start")
+		if !cold {
+			settle()
+			check("start")
+		} else {
+			o.Probe("sys-cold-start")
+		}
 		for i := 0; i < nOps && o.Trouble == "" && len(o.Violations) == 0; i++ {
 			step(i)
 		}
@@ -692,12 +777,11 @@ func runSystem(t *testing.T, tape *simrt.Tape, g simrt.Gen, o *common.Outcome) *
 			settle()
 			check("end")
 		}
+		lateRecs = sortedRecs()
 		closeAll()
-		hsub.Close()
 		psub.Close()
 		probe.Close()
-		h.Close()
-		mgr.Close()
+		closeH()
 		simrt.TimeSleep(10 * time.Second)
 		finished = true
 	})
@@ -723,6 +807,11 @@ func runSystem(t *testing.T, tape *simrt.Tape, g simrt.Gen, o *common.Outcome) *
 	}
 	if sawActive {
 		o.Probe("sys-public-address-advertised")
+	}
+	for _, r := range lateRecs {
+		if r.identified && !r.everOpen {
+			o.Probe("sys-identify-completed-on-conn-closed-before-settle")
+		}
 	}
 	o.Nontrivial = sawActive
 	_ = sawWithdrawn
